@@ -5,6 +5,6 @@ EXTENDS PyLex, Json
 Behaviour ==
   LET F == Final(lx) IN
   [syms |-> syms, chars |-> lx.chars, regions |-> F.regions, stmts |-> F.stmts,
-   names |-> F.names, joins |-> F.joins, bjoins |-> F.bjoins, lstarts |-> LineStarts(lx)]
+   names |-> F.names, joins |-> F.joins, bjoins |-> F.bjoins, kws |-> F.kws, lstarts |-> LineStarts(lx)]
 Export == Accepting(lx) => PrintT(<<"BEH", ToJson(Behaviour)>>)
 =============================================================================
